@@ -47,7 +47,7 @@ from src.core.base import BaseLintContext, BaseLintRule
 from src.core.linter_utils import is_ignored_path, relative_to_root
 from src.core.registry import RuleRegistry
 from src.core.types import Violation
-from src.linter_config.ignore import get_ignore_parser
+from src.linter_config.ignore import new_ignore_parser
 from src.linter_config.loader import LinterConfigLoader
 from src.linter_config.pattern_utils import matches_pattern
 
@@ -294,7 +294,7 @@ class Orchestrator:  # thailint: ignore[srp]
         self.project_root = project_root or Path.cwd()
         self.registry = RuleRegistry()
         self.config_loader = LinterConfigLoader()
-        self.ignore_parser = get_ignore_parser(self.project_root)
+        self.ignore_parser = new_ignore_parser(self.project_root)
 
         # Performance optimization: Defer rule discovery until first file is linted
         # This eliminates ~0.077s overhead for commands that don't need rules (--help, config, etc.)
